@@ -126,7 +126,7 @@ theorem internal_of_mem {s : State} {e : Event} (h : e ∈ internalEvents s) : i
   rcases h with ⟨i, _, h | h⟩ | h
   · rcases h with h | h
     · simp at h
-      rcases h with h | h | h | h | h | h | h | h | h | h | h | h | h | h <;> subst h <;> rfl
+      rcases h with h | h | h | h | h | h | h | h | h | h | h | h | h | h | h <;> subst h <;> rfl
     · cases hq : s.queue.head? <;> simp [hq] at h
       subst h; rfl
   · simp at h; subst h; rfl
@@ -278,7 +278,11 @@ theorem skeleton_matches_model :
     Gen.C09.lockOrderAcyclic ≠ 0 ∧
     -- JoinAll re-asserts its request inside its loop (`joinKill` may recur: joinall_bound applies after the
     -- last overlapping SetWorkerCount); SetWorkerCount's polling loops look at workerKill
-    Gen.C09.joinAllKeepsRequestUp ≠ 0 ∧ Gen.C09.swcLoopsYieldToJoinAll ≠ 0 := by decide
+    Gen.C09.joinAllKeepsRequestUp ≠ 0 ∧ Gen.C09.swcLoopsYieldToJoinAll ≠ 0 ∧
+    -- the worker's exit (`exit`: delete from workerMap, workerExiting--) is one section; WaitAll's snapshot is
+    -- one section under both locks (waitall_sound is about that snapshot); JoinAll's loop broadcasts on every
+    -- iteration (the "a parked worker is woken by the next iteration" disjunct of joinall_not_stuck)
+    Gen.C09.exitAtomic ≠ 0 ∧ Gen.C09.waitAllSnapshotOneSection ≠ 0 ∧ Gen.C09.joinAllLoopBroadcasts ≠ 0 := by decide
 
 /-- the reviewer's interleaving of JoinAll with two resizes: the worker that found the queue empty on the
     exit-when-drained path re-checks workerKill and stays — two workers, as requested -/
